@@ -71,12 +71,15 @@ TABLE = {
          "reference stencils in vlib/refs/stencils.py self-tested against numpy.kron/matrix_rank", "DESIGN.md §2 C20"),
 }
 
+# properties whose check has been integrated (reviewed, swept over seeds on both tiers)
+CLAIMED = ["C20"]
+
 def main():
     claimed, na = [], []
     for pid in sorted(TABLE):
         path = os.path.join(ROOT, "vlib", "checks", pid.lower() + ".py")
         tech, text, note, ref = TABLE[pid]
-        if os.path.exists(path) and not os.path.exists(path + ".wip"):
+        if pid in CLAIMED and os.path.exists(path):
             claimed.append({
                 "property_id": pid,
                 "quick_cmd": f"./check {pid} --tier quick",
